@@ -2,7 +2,7 @@
    [run_ops] executes any history of calls (completed, failing at any point, abandoned, rejected
    before transmission), set_slave and disconnect on a client with a scripted transport. *)
 From Coq Require Import Lia.
-From TM Require Import Base Frame Framed Client ClientProofs Histories.
+From TM Require Import Base Frame Framed Client ClientProofs Histories C10More.
 
 (* every call advances the id by exactly one mod 65536, whatever its outcome *)
 Theorem C10_call_advances_by_one : forall m st req bg,
@@ -22,3 +22,28 @@ Theorem C10_distinct_in_window : forall i j, i < j -> j < i + 65536 -> i mod 655
 Proof. exact tids_distinct_in_window. Qed.
 Theorem C10_never_sticks : forall k, (k + 1) mod 65536 <> k mod 65536.
 Proof. exact tid_never_sticks. Qed.
+
+(* ---- over whole histories of one client ---- *)
+
+(* the ids stamped after history h1 and after the longer history h1 ++ h2 differ whenever h2 holds between
+   1 and 65535 calls -- whatever else h2 contains (slave changes, disconnects) and however its calls ended *)
+Theorem C10_ids_of_two_calls_in_a_history_differ : forall m h1 h2 slave,
+  0 < ncalls h2 -> ncalls h2 < 65536 ->
+  fst (req_hdr TCP (run_ops TCP m (client_new TCP slave) h1))
+  <> fst (req_hdr TCP (run_ops TCP m (client_new TCP slave) (h1 ++ h2))).
+Proof. exact tids_of_histories_distinct. Qed.
+
+(* the id comes round again exactly when 65536 further calls have been made, never earlier *)
+Theorem C10_id_repeats_exactly_after_65536_calls : forall m h1 h2 slave,
+  ncalls h2 <= 65536 ->
+  (fst (req_hdr TCP (run_ops TCP m (client_new TCP slave) h1))
+   = fst (req_hdr TCP (run_ops TCP m (client_new TCP slave) (h1 ++ h2)))
+   <-> ncalls h2 = 0 \/ ncalls h2 = 65536).
+Proof. exact tid_repeats_exactly_after_65536. Qed.
+
+(* changing the slave or disconnecting neither uses up nor resets an id *)
+Theorem C10_other_operations_keep_the_id : forall m h1 h2 slave,
+  ncalls h2 = 0 ->
+  fst (req_hdr TCP (run_ops TCP m (client_new TCP slave) (h1 ++ h2)))
+  = fst (req_hdr TCP (run_ops TCP m (client_new TCP slave) h1)).
+Proof. exact non_calls_keep_tid. Qed.
